@@ -10,6 +10,7 @@
   stream data blocks, DAC stream commands — what `VGM_Interface` offers).
 -/
 import Ctrmml.Proofs.Globals
+import Ctrmml.Proofs.BrkEq
 namespace Ctrmml.Globals
 open Ctrmml Ctrmml.Vgm
 
@@ -152,5 +153,38 @@ theorem C16_compile_frame {α} (drv : DriverFn α) (g : Globals) (h : Reachable 
 example {α} (drv : DriverFn α) (fill : Nat → UInt8) (clk : Clock) (a b : Job α) :
     (runJobs drv fill clk initial [a, b]).2.drop 1 = (runJobs drv fill clk initial [b]).2 := by
   rw [C16_compile_frame drv initial .init, C16_compile_frame drv initial .init]; rfl
+
+/-- export_idempotent_on_song: what the players leave in a `Song` does not influence the MDS
+export.  (i) Two songs that differ only in `LOOP_BREAK` params (`BrkEq`) are converted to the same
+`seq ` bytes, track lists, subroutines, data references or the same error — this covers every
+function of `MDSDRV_Track_Writer` (`event_hook`, the run loop, `get_subroutine`,
+`get_macro_track`: `writerInv`) and the `MDSDRV_Converter` constructor; (ii) one `step_event` of any
+player, in any state, changes the track it reads only in `LOOP_BREAK` params and `play_time`
+stamps (which no exporter of the model reads: `Event` has no such field), so the song after any
+number of player steps is `BrkEq` to the song before.  Hence exporting the same `Song` object
+twice (MDS then VGM, VGM then MDS, after validation) gives the same MDS bytes. -/
+theorem C16_export_idempotent_on_song :
+    (∀ (s s' : Song) (d : Mds.DataInfo) (v : Option Nat), BrkEq s s' →
+        (Mds.convertSong s d v).map (·.seq) = (Mds.convertSong s' d v).map (·.seq) ∧
+        (compileMds initial s d v).2 = (compileMds initial s' d v).2) ∧
+    (∀ (st : Player.PState) (code : List SEvent),
+        normCode (eraseStamps (wbStep st code)) = normCode (eraseStamps code)) := by
+  refine ⟨?_, wbStep_norm⟩
+  intro s s' d v h
+  have e1 := convertSong_norm s d v
+  have e2 := convertSong_norm s' d v
+  unfold BrkEq at h
+  rw [h] at e1
+  have : Mds.convertSong s d v = Mds.convertSong s' d v := by rw [← e1, e2]
+  simp only [compileMds, this, and_self]
+
+/-- non-vacuity: a song whose `LOOP_BREAK` carries the end position a player wrote (3) and the same
+song as the front end built it (0) are `BrkEq` but different, and a player step on a break inside a
+running loop does write that param -/
+example : BrkEq ⟨[(0, [⟨4, 0, 0, 0⟩, ⟨2, 36, 6, 0⟩, ⟨5, 3, 0, 0⟩, ⟨2, 38, 6, 0⟩, ⟨6, 2, 0, 0⟩])]⟩
+                ⟨[(0, [⟨4, 0, 0, 0⟩, ⟨2, 36, 6, 0⟩, ⟨5, 0, 0, 0⟩, ⟨2, 38, 6, 0⟩, ⟨6, 2, 0, 0⟩])]⟩ := by
+  unfold BrkEq; rfl
+example : (wbStep { core := { track := .root, position := 0, stack := [⟨.loop, .root, 1, 5, 1⟩] }, acc := {} }
+    [⟨⟨5, 0, 0, 0⟩, 4294967295⟩]) = [⟨⟨5, 5, 0, 0⟩, 0⟩] := by decide
 
 end Ctrmml.Globals
